@@ -1,4 +1,4 @@
-import FitProps.WriterOutcomeLemmas
+import FitProps.WriterStreamLemmas
 /-!
 # C09 — Output bytes do not depend on writer kind, buffering or batch vs stream
 
@@ -98,5 +98,57 @@ theorem C09_kinds_agree (o : Opts) (k₁ k₂ : Kind) (s₁ s₂ : Nat) (d₀ : 
     (encodeChainW noFault o (encOn o k₂ s₂ d₀ d₀.content.length) fs).1.w.d.content := by
   rw [(C09_same_bytes_batch o k₁ s₁ d₀ _ fs hend hlog (fun _ => rfl)).2.2.1,
     (C09_same_bytes_batch o k₂ s₂ d₀ _ fs hend hlog (fun _ => rfl)).2.2.1]
+
+/-- a new stream encoder on a destination (`n₀` as in `encOn`), with `hdrDs` in the header value it keeps -/
+def streamOn (o : Opts) (kind : Kind) (size : Nat) (d₀ : Dest) (n₀ hdrDs : Nat) : Stream :=
+  { e := encOn o kind size d₀ n₀, hdrDs := hdrDs }
+
+/-- STREAM = BATCH under every fault schedule (hence in particular on a healthy destination): `WriteMessage` per message
+and `SequenceCompleted` per sequence issue exactly the destination operations of `Encode` of the same messages under
+the stream encoder's header — same writer state afterwards (destination content, position, operation log, buffer),
+same success/failure, same number of completed sequences. Holds for the code as pinned and as repaired (`c`). -/
+theorem C09_stream_equals_batch (F : Faults) (c : StreamCfg) (o : Opts) (h : Hdr) (kind : Kind) (size : Nat) (d₀ : Dest)
+    (n₀ hdrDs : Nat) (mss : List (List WMsg)) (hne : ∀ ms ∈ mss, ms ≠ []) (hdir : kind.direct = true)
+    (hend : d₀.pos = d₀.content.length) (hown : kind = .at → n₀ = d₀.content.length) :
+    (Stream.chain F c o h (streamOn o kind size d₀ n₀ hdrDs) mss).1.e.w =
+      (encodeChainW F o (encOn o kind size d₀ n₀) (streamFits c o h hdrDs mss)).1.w ∧
+    (Stream.chain F c o h (streamOn o kind size d₀ n₀ hdrDs) mss).2 =
+      (encodeChainW F o (encOn o kind size d₀ n₀) (streamFits c o h hdrDs mss)).2 :=
+  stream_chain_eq F c o h mss (streamOn o kind size d₀ n₀ hdrDs) hne rfl (encOn_ready o kind size d₀ n₀ hend hown) hdir
+
+/-- SAME BYTES, stream: for every random-access writer kind, every buffer size, every series of non-empty sequences and
+every pre-filled destination, a healthy destination ends up holding `d₀ ++ encodeChain o [(h, ms₁), (h, ms₂), …]` —
+the very bytes the batch encoder leaves for the same messages under the header `h` (C09_same_bytes_batch). -/
+theorem C09_same_bytes_stream (c : StreamCfg) (o : Opts) (h : Hdr) (kind : Kind) (size : Nat) (d₀ : Dest)
+    (n₀ hdrDs : Nat) (mss : List (List WMsg)) (hne : ∀ ms ∈ mss, ms ≠ []) (hdir : kind.direct = true)
+    (hend : d₀.pos = d₀.content.length) (hlog : ∀ op ∈ d₀.log, op.ok = true) (hown : kind = .at → n₀ = d₀.content.length) :
+    (Stream.chain noFault c o h (streamOn o kind size d₀ n₀ hdrDs) mss).2 = (mss.length, true) ∧
+    (Stream.chain noFault c o h (streamOn o kind size d₀ n₀ hdrDs) mss).1.e.w.d.content =
+      d₀.content ++ encodeChain o (mss.map fun ms => (h, ms)) := by
+  obtain ⟨e1, e2⟩ := C09_stream_equals_batch noFault c o h kind size d₀ n₀ hdrDs mss hne hdir hend hown
+  obtain ⟨b1, b2, b3, _⟩ := C09_same_bytes_batch o kind size d₀ n₀ (streamFits c o h hdrDs mss) hend hlog hown
+  rw [e1, e2, b3, fitsOf_streamFits]
+  refine ⟨?_, rfl⟩
+  have hl : (streamFits c o h hdrDs mss).length = mss.length := by
+    have := congrArg List.length (fitsOf_streamFits c o h hdrDs mss)
+    simpa [fitsOf] using this
+  rw [← hl, ← b2, ← b1]
+
+/-- SAME BYTES, all together: the same message lists under the same header through (i) `Encode` on a writer of ANY kind
+with ANY buffer size and (ii) the stream encoder on a random-access writer of any kind with any buffer size leave
+identical destination contents, on any pre-filled destination. -/
+theorem C09_same_bytes (c : StreamCfg) (o : Opts) (h : Hdr) (k₁ k₂ : Kind) (s₁ s₂ : Nat) (d₀ : Dest) (ds : Nat → Nat)
+    (mss : List (List WMsg)) (hne : ∀ ms ∈ mss, ms ≠ []) (hdir : k₂.direct = true)
+    (hend : d₀.pos = d₀.content.length) (hlog : ∀ op ∈ d₀.log, op.ok = true) :
+    (encodeChainW noFault o (encOn o k₁ s₁ d₀ d₀.content.length) (mss.zipIdx.map fun (ms, i) => ⟨h, ds i, ms⟩)).1.w.d.content =
+    (Stream.chain noFault c o h (streamOn o k₂ s₂ d₀ d₀.content.length 0) mss).1.e.w.d.content := by
+  rw [(C09_same_bytes_batch o k₁ s₁ d₀ _ _ hend hlog (fun _ => rfl)).2.2.1,
+    (C09_same_bytes_stream c o h k₂ s₂ d₀ _ 0 mss hne hdir hend hlog (fun _ => rfl)).2]
+  congr 2
+  simp only [fitsOf, List.map_map]
+  have : mss.zipIdx.map (fun x => (h, x.1)) = mss.map fun ms => (h, ms) := by
+    conv => rhs; rw [← List.zipIdx_map_fst 0 mss]
+    rw [List.map_map]; rfl
+  rw [← this]; rfl
 
 end Fit.C09
